@@ -11,7 +11,7 @@ from collections.abc import Callable
 import logging
 
 from xknx.exceptions import CommunicationError, CouldNotParseKNXIP, IncompleteKNXIPFrame
-from xknx.knxip import HPAI, HostProtocol, KNXIPFrame
+from xknx.knxip import HPAI, HostProtocol, KNXIPFrame, KNXIPHeader
 
 from .ip_transport import KNXIPTransport
 
@@ -97,12 +97,28 @@ class TCPTransport(KNXIPTransport):
             )
             return
         except CouldNotParseKNXIP as couldnotparseknxip:
+            # skip the malformed frame by the total length its header announces
+            total_length = KNXIPHeader.HEADERLENGTH
+            if len(raw) >= KNXIPHeader.HEADERLENGTH:
+                total_length = int.from_bytes(raw[4:6], "big")
+            skippable = (
+                raw[0] == KNXIPHeader.HEADERLENGTH
+                and total_length >= KNXIPHeader.HEADERLENGTH
+            )
+            if skippable and len(raw) < total_length:
+                # rest of the malformed frame was not received yet
+                self._buffer = raw
+                return
             knx_logger.debug(
                 "Unsupported KNXIPFrame from %s: %s in %s",
                 self.remote_hpai,
                 couldnotparseknxip.description,
                 raw.hex(),
             )
+            if not skippable:
+                # no usable length information - can not find the next frame
+                return
+            next_frame_part = raw[total_length:]
         else:
             knx_logger.debug(
                 "Received from %s: %s",
